@@ -152,7 +152,7 @@ def run_fuzz(pid, p, tier, workdir):
     for tgt in p.get("fuzz", []):
         cache = os.path.join(workdir, "fuzzcache")
         cmd = [GO, "test", "-vet=off", "-run", "^$", "-fuzz", "^" + tgt["name"] + "$",
-               "-fuzztime", f"{tgt.get('seconds', 60)}s", "-test.fuzzcachedir", cache, "./" + p["pkg"] + "/"]
+               "-fuzztime", f"{tgt.get('seconds', 60)}s", "./" + p["pkg"] + "/", "-test.fuzzcachedir", cache]
         if p.get("tags"):
             cmd[2:2] = ["-tags", p["tags"]]
         r = subprocess.run(cmd, cwd=harness_dir(), env=go_env(), stdout=subprocess.PIPE, stderr=subprocess.STDOUT,
